@@ -12,7 +12,8 @@ from translate import libio as t_libio, wrapper as t_wr, gatecode as t_gc, stora
 
 THEOREMS = ["C16_disciplines", "C16_invariant", "C16_no_crash", "C16_inplace_refuted", "C16_bypath_refuted", "C16_reentrant_structure",
             "C16_rebuilds_empty_refuted", "C16_compile_requires_model", "C16_buffers_private", "C16_threads_sequential",
-            "C16_threads_complete", "C16_stale_memory", "C16_shared_static_refuted", "C16_private_example", "C16_unwritten_read_refuted"]
+            "C16_threads_complete", "C16_stale_memory", "C16_shared_static_refuted", "C16_private_example", "C16_unwritten_read_refuted",
+            "C16_invariant_any_inode_policy", "C16_policies_fresh", "C16_cached_by_identity_refuted"]
 TRUSTED = [
     "Coq 8.16.1 kernel/coqc; theorems closed under the global context",
     "partial: the process model Model/Proc.v (files as inodes, in-place overwrite modifies mapped pages, dlopen caches by path name, a "
@@ -110,6 +111,14 @@ def histories(ck):
                 ops.append(("call", rng.randrange(len(kinds))))
         out.append(ops)
     return out
+
+
+def recompile_refuses(ck):
+    """Model/ProcAlloc models the current recompile discipline only (an instance without a model refuses)."""
+    try:
+        return "Definition recompile_mode : recompile_discipline := Refuses." in t_libio.gen_libio()
+    except Exception:
+        return False
 
 
 def _interleave(rng, turns):
@@ -273,13 +282,18 @@ def run(ck: Check):
         if o[0] == "recompile":
             return f"ORecompile {o[1]} {'None' if o[2] is None else '(Some ' + str(o[2]) + ')'}"
         return f"OCall {o[1]}"
-    txt = ("From Coq Require Import List Arith. Import ListNotations.\nFrom TLX Require Import Gen.LibIO Model.Proc.\n"
+    txt = ("From Coq Require Import List Arith. Import ListNotations.\nFrom TLX Require Import Gen.LibIO Model.Proc Model.ProcAlloc.\n"
            "Definition show (o : outcome) : nat * nat := match o with RHandle h => (0, h) | RValue m => (1, m) | RCrash => (2, 0) | RError => (3, 0) end.\n"
-           "Eval vm_compute in [" + ";\n ".join("map show (run save_mode load_mode recompile_mode empty [" + "; ".join(opc(o) for o in ops) + "])" for ops in hs) + "].\n")
+           "Eval vm_compute in [" + ";\n ".join("map show (run save_mode load_mode recompile_mode empty [" + "; ".join(opc(o) for o in ops) + "])" for ops in hs) + "].\n"
+           # the same histories in the machine whose file identities are re-used (temporaries on another device, saves take the
+           # smallest free number): equal to the first list by theorem C16_invariant_any_inode_policy, evaluated as a cross-check
+           "Eval vm_compute in [" + ";\n ".join("map show (arun alloc_two_devices LPrivateCopy aempty [" + "; ".join(opc(o) for o in ops) + "])" for ops in hs) + "].\n")
     rc, out, err = ck.coq_eval("c16m", txt)
     preds = coqio.parse_evals(out)[0] if rc == 0 else None
     if preds is None:
         ck.broke("correspondence", "kernel evaluation of Model/Proc", err[-500:])
+    elif recompile_refuses(ck) and coqio.parse_evals(out)[1] != preds:
+        ck.broke("correspondence", "Model/ProcAlloc.arun vs Model/Proc.run", "the two machines differ on a sampled history")
     for hi, (ops, res) in enumerate(zip(hs, results)):
         resaves = len([o for o in ops if o[0] in ("compile", "recompile") and o[2] is not None]) >= 2
         case = {"history": [list(o) for o in ops], "W": [8, 64][hi % 2]}
